@@ -165,6 +165,18 @@ func init() {
 		e := cx.fr.eng
 		vc := e.vc
 		c := e.comp("$now", "Int")
+		if e.topFrame != nil && e.topFrame.con != nil && e.topFrame.con.FrozenClock {
+			// all clock readings within the call agree (listed assumption)
+			vc.assumes["frozen clock: every clock reading within "+shortName(vc.fnKey)+" returns the same instant"] = true
+			fz := e.comp("$frozen", "Int")
+			if _, ok := cx.st.heap[fz]; !ok {
+				t := vc.freshAlways("now", "Int")
+				vc.assume(fmt.Sprintf("(and (>= %s %s) (> %s 0))", t, e.get(cx.st, c), t))
+				cx.st.heap[fz] = t
+				cx.st.heap[c] = t
+			}
+			return []Term{cx.st.heap[fz]}
+		}
 		t := vc.fresh("now", "Int")
 		vc.assumeIf(cx.st.pc, fmt.Sprintf("(and (>= %s %s) (> %s 0))", t, e.get(cx.st, c), t))
 		cx.st.heap[c] = t
@@ -215,6 +227,15 @@ func init() {
 		f := sym("errAs$" + tn)
 		vc.decl("fn:"+f, fmt.Sprintf("(declare-fun %s (Iface) Bool)", f))
 		vc.decl("ax:"+f, fmt.Sprintf("(assert (not (%s nil_iface)))", f))
+		// an error whose dynamic type is the target's element type matches
+		if len(cx.argVs) > 1 {
+			if mi, ok := cx.argVs[1].(*ssa.MakeInterface); ok {
+				if pt, ok := mi.X.Type().Underlying().(*types.Pointer); ok {
+					id := vc.typeID(pt.Elem())
+					vc.decl("ax2:"+f, fmt.Sprintf("(assert (forall ((e Iface)) (! (=> (= (iface_tag e) %d) (%s e)) :pattern ((%s e)))))", id, f, f))
+				}
+			}
+		}
 		return []Term{fmt.Sprintf("(%s %s)", f, cx.args[0])}
 	}
 	stubs["errors.Is"] = func(cx *callCtx) []Term {
@@ -257,7 +278,7 @@ func init() {
 		vc.assume(fmt.Sprintf("(not (= %s nil_iface))", errc))
 		okc := fmt.Sprintf("(or (= %s 0) (pct_ok %s))", typ, sv)
 		prod := fmt.Sprintf("(* (pct_val %s) %s)", sv, total)
-		val := fmt.Sprintf("(ite (= %s 0) %s (ite %s (div (+ %s 99) 100) (div %s 100)))", typ, iv, up, prod, prod)
+		val := fmt.Sprintf("(ite (= %s 0) %s (ite %s (- (div (- %s) 100)) (div %s 100)))", typ, iv, up, prod, prod)
 		return []Term{ite(okc, val, "0"), ite(okc, "nil_iface", errc)}
 	}
 	stubs["github.com/samber/lo.Must"] = func(cx *callCtx) []Term { return []Term{cx.args[0]} }
@@ -315,6 +336,98 @@ func init() {
 		gv := cx.argTs[0]
 		vc.sortOf(gv)
 		return []Term{fmt.Sprintf("(gvstr (%s %s) (%s %s))", vc.structSel(gv, 0), cx.args[0], vc.structSel(gv, 1), cx.args[0])}
+	}
+	// cron: a schedule is a function of its spec string; Next(t) is the first hit strictly after t
+	declCron := func(vc *VC) {
+		vc.decl("fn:cron_ok", "(declare-fun cron_ok (Str) Bool)")
+		vc.decl("fn:cronSched", "(declare-fun cronSched (Str) Iface)")
+		vc.decl("fn:cronHit", "(declare-fun cronHit (Iface Int) Bool)")
+		vc.decl("c:cron_err", "(declare-const cron_err Iface)")
+		vc.decl("ax:cron_err", "(assert (not (= cron_err nil_iface)))")
+	}
+	stubs["github.com/robfig/cron/v3.ParseStandard"] = func(cx *callCtx) []Term {
+		vc := cx.fr.eng.vc
+		declCron(vc)
+		s := cx.args[0]
+		return []Term{fmt.Sprintf("(cronSched %s)", s), fmt.Sprintf("(ite (cron_ok %s) nil_iface cron_err)", s)}
+	}
+	stubs["(github.com/robfig/cron/v3.Schedule).Next"] = func(cx *callCtx) []Term {
+		vc := cx.fr.eng.vc
+		declCron(vc)
+		n := vc.fresh("nexthit", "Int")
+		sc, t := cx.args[0], cx.args[1]
+		vc.assumeIf(cx.st.pc, fmt.Sprintf("(and (> %s %s) (cronHit %s %s) (forall ((u Int)) (! (=> (and (< %s u) (< u %s)) (not (cronHit %s u))) :pattern ((cronHit %s u)))))", n, t, sc, n, t, n, sc, sc))
+		return []Term{n}
+	}
+	stubs["fmt.Sprintf"] = func(cx *callCtx) []Term {
+		vc := cx.fr.eng.vc
+		n := cx.staticSliceLen(1)
+		if n == 1 && len(cx.argVs) > 1 {
+			// one argument: a function of format and argument when the argument is a string
+			if sl, ok := cx.argVs[1].(*ssa.Slice); ok {
+				if al, ok := sl.X.(*ssa.Alloc); ok {
+					for _, r := range *al.Referrers() {
+						if ia, ok := r.(*ssa.IndexAddr); ok {
+							for _, r2 := range *ia.Referrers() {
+								if stx, ok := r2.(*ssa.Store); ok {
+									if mi, ok := stx.Val.(*ssa.MakeInterface); ok && isString(mi.X.Type()) {
+										vc.decl("fn:sprintf1", "(declare-fun sprintf1 (Str Str) Str)")
+										return []Term{fmt.Sprintf("(sprintf1 %s %s)", cx.args[0], cx.fr.val(mi.X))}
+									}
+								}
+							}
+						}
+					}
+				}
+			}
+		}
+		return cx.freshResults("sprintf")
+	}
+	stubs["k8s.io/apimachinery/pkg/util/intstr.FromInt"] = func(cx *callCtx) []Term {
+		vc := cx.fr.eng.vc
+		t := cx.sig.Results().At(0).Type()
+		vc.sortOf(t)
+		return []Term{fmt.Sprintf("(%s 0 %s %s)", vc.structCtor(t), cx.args[0], vc.strLit(""))}
+	}
+	stubs["k8s.io/apimachinery/pkg/util/intstr.FromString"] = func(cx *callCtx) []Term {
+		vc := cx.fr.eng.vc
+		t := cx.sig.Results().At(0).Type()
+		vc.sortOf(t)
+		return []Term{fmt.Sprintf("(%s 1 0 %s)", vc.structCtor(t), cx.args[0])}
+	}
+	stubs["github.com/samber/lo.Min"] = func(cx *callCtx) []Term {
+		n := cx.staticSliceLen(0)
+		if n < 1 || n > 4 {
+			return cx.freshResults("lomin")
+		}
+		e := cx.fr.eng
+		box := e.get(cx.st, e.boxComp(cx.argTs[0].Underlying().(*types.Slice).Elem()))
+		t := sel(box, fmt.Sprintf("(sidx %s 0)", cx.args[0]))
+		for j := 1; j < n; j++ {
+			x := sel(box, fmt.Sprintf("(sidx %s %d)", cx.args[0], j))
+			t = fmt.Sprintf("(ite (<= %s %s) %s %s)", t, x, t, x)
+		}
+		return []Term{t}
+	}
+	stubs["github.com/samber/lo.Contains"] = func(cx *callCtx) []Term {
+		e := cx.fr.eng
+		sl := cx.argTs[0].Underlying().(*types.Slice)
+		if isStructLike(sl.Elem()) {
+			return cx.freshResults("contains")
+		}
+		box := e.get(cx.st, e.boxComp(sl.Elem()))
+		return []Term{fmt.Sprintf("(exists ((j Int)) (! (and (<= 0 j) (< j (s_len %s)) (= (select %s (sidx %s j)) %s)) :pattern ((sidx %s j))))", cx.args[0], box, cx.args[0], cx.args[1], cx.args[0])}
+	}
+	stubs["github.com/awslabs/operatorpkg/serrors.Wrap"] = func(cx *callCtx) []Term {
+		vc := cx.fr.eng.vc
+		r := vc.fresh("wrapped", "Iface")
+		vc.assume(fmt.Sprintf("(not (= %s nil_iface))", r))
+		return []Term{ite(eq(cx.args[0], "nil_iface"), "nil_iface", r)}
+	}
+	stubs["(k8s.io/apimachinery/pkg/labels.Selector).Matches"] = func(cx *callCtx) []Term {
+		vc := cx.fr.eng.vc
+		vc.decl("fn:selMatches", "(declare-fun selMatches (Iface Iface) Bool)")
+		return []Term{fmt.Sprintf("(selMatches %s %s)", cx.args[0], cx.args[1])}
 	}
 	stubs["math/rand.Intn"] = func(cx *callCtx) []Term {
 		vc := cx.fr.eng.vc
